@@ -255,14 +255,16 @@ _ELIM_TEXT = ('infeasible_elimination, FOR EVERY ANSWER of the LP solver, the to
               'MEANING (conditional function preservation, same unit): there is a set of blamed nodes, each either cached infeasible at entry or given an Infeasible answer by the LP layer for the polytope recorded for it at its visit, '
               'such that every input whose evaluation in the ORIGINAL tree passes no blamed node keeps its value and its undefinedness: tree_fn(after, x) == tree_fn(before, x) '
               '(per step: forward_if_redundant changes the function at most for inputs that reach the decision and leave it through a child cached infeasible - lemma_fwd_sem; a deferred removal at most for inputs taking the removed branch; state writes not at all). '
-              'What stays outside: that the recorded polytope is the path region of the node while the tree is being mutated (proved for an unchanged tree in unit pwl_regions), and that an Infeasible LP answer is right (C10). ')
+              'REGION LINK (same unit): the polytope recorded for a blamed node c is satisfied by EVERY input whose evaluation in the original tree passes c (region_covers): PolyhedraGen\'s bookkeeping invariant gen_inv of unit pwl_regions is carried through the run with respect to the ORIGINAL arena, '
+              'because the traversal only reads nodes the mutations have not touched (reg_inv: unvisited nodes keep their child slots, waiting nodes keep their parent pointer and parent slot; splices only re-hang visited nodes), and intersection_n is the conjunction of the reported half-spaces (assumed contract of the closure pipeline). '
+              'Consequently: if every Infeasible LP answer is right (the polytope has no point) and no input reaches a node cached infeasible at entry, then NO input is blamed and tree_fn(after, x) == tree_fn(before, x) for every x - C03 for infeasible_elimination reduced to LP soundness (C10). ')
 _ELIM_ASSUME = [
-    'unit pwl_elim: K == 2 (PolyhedraGen::next panics on labels >= 2), arena of at most i32::MAX nodes, input tree well-formed with aff shapes of the tree dimension, non-empty cached witness lists (vals_ok) and one-row decisions (dec_one_row); '
+    'unit pwl_elim: verified for K = 2 (rule G1: infeasible_elimination of `impl<const K: usize> AffTree<K>` is placed in `impl AffTree<2>`; PolyhedraGen::next panics on labels >= 2), aff_shape_ok, arena of at most i32::MAX nodes, input tree well-formed with aff shapes of the tree dimension, non-empty cached witness lists (vals_ok) and one-row decisions (dec_one_row); '
     'rule N3: `while let Some((data, polyhedra)) = iter.next(&self.tree)` is read as `while let Some(data) = iter.next(&self.tree)` + `let polyhedra = iter.current_polytope()` (PolyhedraGen::next is verified with the pair result replaced by the node data; current_polytope returns the same vector); '
     'the PerformanceCounter increments are dropped (rule D7) except that `self.tree.num_nodes(node_idx) - 1` is kept as a statement (num_nodes: iterator pipeline, trusted "requires the node, returns >= 1"); `for (label, node) in to_remove` is the index loop; node_value(i) is read as tree_node(i).value (rule N2); '
     'phase_one (repair heuristic around mirror_points, numeric code) is an ORACLE returning Indeterminate or a non-empty witness list (mirror_points returns Some only with at least one column), its shape assertion (cached witnesses have the polytope dimension) is ASSUMED; '
-    'Polytope::intersection_n (closure pipeline + ndarray::concatenate) is trusted with the precondition "all parts have the given dimension" derived from its panic; phase_inh / phase_two / forward_if_redundant / DfsPre::next / skip_subtree / try_remove_child are used through the contracts proved in units pwl_feasible / pwl_forward / tree_iter / tree_graph; '
-    'PolyhedraGen::next is re-verified here under a structural contract (stack step, shapes of the half-spaces, at least one half-space below the root) that does not need the tree to be unchanged since the previous call',
+    'Polytope::intersection_n (closure pipeline + ndarray::concatenate) is trusted with the precondition "all parts have the given dimension" derived from its panic and the ASSUMED postcondition "a point satisfies the result iff it satisfies every part" (bounded: bc poly); phase_inh / phase_two / forward_if_redundant / DfsPre::next / skip_subtree / try_remove_child are used through the contracts proved in units pwl_feasible / pwl_forward / tree_iter / tree_graph; '
+    'PolyhedraGen::next is re-verified here (K = 2, pair result replaced by the node data, ghost arguments in_dim / original arena a0 / recorded path) under a contract that does not need the tree to be unchanged since the previous call: structural step, shapes of the half-spaces, at least one half-space below the root, and gen_inv with respect to a0 given top_agrees for the entry about to be popped',
 ]
 PROPS['C04'].update({
     'level': 'other',
